@@ -372,7 +372,8 @@ CO_ERR COLssLoad(uint32_t *baudrate, uint8_t *nodeId) {
     Slot &S = W->S();
     W->ev(EV_LSSLOAD);
     if (S.lssLoadFail > 0) { S.lssLoadFail--; return CO_ERR_LSS_LOAD; }
-    if (S.lssStored) { if (S.lssBaud != 0) *baudrate = S.lssBaud; if (S.lssNode != 0) *nodeId = S.lssNode; }
+    if (S.lssStored) { if (S.lssBaud != 0) *baudrate = S.lssBaud;
+        if (S.lssNode != 0) { if (S.lssLoadViaApi && S.node && CONmtGetMode(&S.node->Nmt) == CO_INIT) CONmtSetNodeId(&S.node->Nmt, S.lssNode); else *nodeId = S.lssNode; } }
     return CO_ERR_NONE;
 }
 CO_ERR COLssStore(uint32_t baudrate, uint8_t nodeId) {
